@@ -502,7 +502,35 @@ func (g *Graph) DefOf(id *ast.Ident, at Site) (rhs ast.Expr, idx int) {
 	return
 }
 
+type defKey struct {
+	id *ast.Ident
+	b  *Block
+	i  int
+}
+
+type defVal struct {
+	rhs   ast.Expr
+	idx   int
+	tuple bool
+}
+
 func (g *Graph) defOf(id *ast.Ident, at Site) (rhs ast.Expr, idx int, tuple bool) {
+	if g.inDefFilter {
+		return g.defOf1(id, at)
+	}
+	if g.defCache == nil {
+		g.defCache = map[defKey]defVal{}
+	}
+	k := defKey{id, at.B, at.I}
+	if v, ok := g.defCache[k]; ok {
+		return v.rhs, v.idx, v.tuple
+	}
+	rhs, idx, tuple = g.defOf1(id, at)
+	g.defCache[k] = defVal{rhs, idx, tuple}
+	return
+}
+
+func (g *Graph) defOf1(id *ast.Ident, at Site) (rhs ast.Expr, idx int, tuple bool) {
 	f := g.Fn
 	obj := f.ObjOf(id)
 	if obj == nil {
@@ -593,6 +621,25 @@ func (g *Graph) defOf(id *ast.Ident, at Site) (rhs ast.Expr, idx int, tuple bool
 					isV := func(e ast.Expr) bool { return f.ObjOf(e) == obj }
 					if g.Dominated(at, g.GExprNil(false, isV)) {
 						out = &nonNil[0]
+					}
+				}
+				// A definition that no feasible path to the use passes is not the one seen either:
+				// `r, err = nil, e` (e != nil) ... `if err != nil { return }; use(r)`.
+				if out == nil && len(distinct) > 1 && len(distinct) <= 8 {
+					var feasible []res
+					done := map[ast.Node]bool{}
+					for _, d := range defs {
+						if done[d.n] {
+							continue
+						}
+						done[d.n] = true
+						dn := d.n
+						if !g.Dominated(at, GNot(GEvent(func(n ast.Node) bool { return n == dn }))) {
+							feasible = append(feasible, d)
+						}
+					}
+					if len(feasible) == 1 && feasible[0].rhs != nil {
+						out = &feasible[0]
 					}
 				}
 				g.inDefFilter = false
@@ -858,6 +905,11 @@ func (f *Fn) Resolve(e ast.Expr) ast.Expr {
 			}
 			e = d
 			continue
+		case *ast.SelectorExpr:
+			if v := f.FieldOfLocalLit(x); v != nil {
+				e = v
+				continue
+			}
 		case *ast.CallExpr:
 			if len(x.Args) == 1 {
 				if tv, ok := f.Info().Types[x.Fun]; ok && tv.IsType() {
@@ -871,6 +923,87 @@ func (f *Fn) Resolve(e ast.Expr) ast.Expr {
 		return e
 	}
 	return e
+}
+
+// FieldOfLocalLit sees through a parameter struct: for `in := T{a: x, b: y}` (a struct value held in a local that is
+// never written field by field, never has its address taken and has no pointer-receiver method called on it) the
+// selector in.a denotes x. It returns nil when the selector is anything else.
+func (f *Fn) FieldOfLocalLit(sel *ast.SelectorExpr) ast.Expr {
+	id, ok := ast.Unparen(sel.X).(*ast.Ident)
+	if !ok {
+		return nil
+	}
+	v, ok := f.ObjOf(id).(*types.Var)
+	if !ok || v.IsField() {
+		return nil
+	}
+	if _, isStruct := v.Type().Underlying().(*types.Struct); !isStruct {
+		return nil
+	}
+	fld, ok := f.Info().Uses[sel.Sel].(*types.Var)
+	if !ok || !fld.IsField() {
+		return nil
+	}
+	def := f.LocalDef(id)
+	if def == nil {
+		return nil
+	}
+	lit, ok := ast.Unparen(def).(*ast.CompositeLit)
+	if !ok {
+		return nil
+	}
+	if f.structEscapes == nil {
+		f.structEscapes = map[*types.Var]bool{}
+	}
+	esc, known := f.structEscapes[v]
+	if !known {
+		InspectNoLit(f.Body, func(n ast.Node) bool {
+			switch x := n.(type) {
+			case *ast.UnaryExpr:
+				if x.Op == token.AND && f.ObjOf(ast.Unparen(x.X)) == types.Object(v) {
+					esc = true
+				}
+			case *ast.AssignStmt:
+				for _, l := range x.Lhs {
+					if s, ok := ast.Unparen(l).(*ast.SelectorExpr); ok && f.ObjOf(ast.Unparen(s.X)) == types.Object(v) {
+						esc = true
+					}
+				}
+			case *ast.IncDecStmt:
+				if s, ok := ast.Unparen(x.X).(*ast.SelectorExpr); ok && f.ObjOf(ast.Unparen(s.X)) == types.Object(v) {
+					esc = true
+				}
+			case *ast.SelectorExpr:
+				if f.ObjOf(ast.Unparen(x.X)) == types.Object(v) {
+					if selc := f.Info().Selections[x]; selc != nil && selc.Kind() == types.MethodVal {
+						if sig, ok := selc.Obj().Type().(*types.Signature); ok && sig.Recv() != nil {
+							if _, ptr := sig.Recv().Type().(*types.Pointer); ptr {
+								esc = true
+							}
+						}
+					}
+				}
+			}
+			return true
+		})
+		if f.assignedInLit(v) {
+			esc = true
+		}
+		f.structEscapes[v] = esc
+	}
+	if esc {
+		return nil
+	}
+	for _, el := range lit.Elts {
+		kv, ok := el.(*ast.KeyValueExpr)
+		if !ok {
+			return nil // positional literal: not seen through
+		}
+		if k, ok := kv.Key.(*ast.Ident); ok && f.Info().Uses[k] == types.Object(fld) {
+			return kv.Value
+		}
+	}
+	return nil
 }
 
 // FactSite locates the block/index at which a fact's expression is evaluated.
@@ -1042,6 +1175,12 @@ func (f *Fn) Denotes(e ast.Expr, o types.Object) bool {
 		if c, isCall := e.(*ast.CallExpr); isCall && len(c.Args) == 1 {
 			if tv, ok := f.Info().Types[c.Fun]; ok && tv.IsType() {
 				e = c.Args[0] // a conversion
+				continue
+			}
+		}
+		if sel, isSel := e.(*ast.SelectorExpr); isSel {
+			if v := f.FieldOfLocalLit(sel); v != nil {
+				e = v
 				continue
 			}
 		}
